@@ -1,7 +1,8 @@
 """C20 (`is updated` / `is changed` conditions) and C21 (comparison conditions): the need language of specs/flo/Flo.tla.
 
 C21 - binding C + end to end.  specs/flo/FloNeedsTable.tla enumerates the grid of need instances (all operators,
-      negation, numbers in halves incl. negatives, every tolerance incl. zero and negative, strings, booleans,
+      negation, numbers in halves incl. negatives, every tolerance incl. zero and negative, the same number comparisons
+      with state and goal shifted to large magnitudes (+-10^6, +-10^9: 10-digit literals, exact as floats), strings, booleans,
       string-against-number equality, truthiness, the framer clocks, direct and share-valued goals, conjunctions of two
       and three) and writes the expected truth values computed with operator Check of FloNeeds.tla (written from the
       property statement); TLC also checks the algebra of the comparison over the grid.  Every row is run end to end as
@@ -103,9 +104,20 @@ def table_prog(rows, rng):
     return prog, {1: writes}, 2
 
 
+def magnitude(c):
+    """0 for ordinary operands, else the signed order of magnitude (rows with state and goal shifted by +-10^6, +-10^9)"""
+    v = c["state"]["v"]
+    if c["state"]["t"] != "n" or abs(v) < 1000:
+        return 0
+    return (1 if v > 0 else -1) * len(str(abs(v)))
+
+
 def row_kind(row):
     c = row["cl"][0]
-    return (len(row["cl"]), c["k"], c["src"], c["state"]["t"], c["goal"]["t"], c["op"], c["neg"], c["gk"], c["tol"] != 0)
+    big = magnitude(c)
+    # large operands: every distance between state and goal is its own kind (the band must not widen with magnitude)
+    dist = (c["state"]["v"] - c["goal"]["v"]) if big and c["goal"]["t"] == "n" else 0
+    return (len(row["cl"]), c["k"], c["src"], c["state"]["t"], c["goal"]["t"], c["op"], c["neg"], c["gk"], c["tol"] != 0, big, dist)
 
 
 def select_rows(ctx, rows):
